@@ -1,7 +1,7 @@
 import CoapVerif.Model.Lock
 import CoapVerif.Generated.ThreadCfg
 /- Line-protocol driver for C13 (the global lock).
-     lkseq <rc:0|1> <tok>…                           one thread, tokens L U K+ K- R+ R- X+ X- Y+ Y- W+ W-
+     lkseq <rc:0|1> <tok>…                           one thread, tokens L U K+ K- R+ R- X+ X- Y+ Y- W+ W- S
      lksched <rc:0|1> <prog0>/<prog1>/… <t0,t1,…>     several threads (programs: tokens joined by `,`), a schedule
      lkcfg                                         the T1 build-configuration facts
    Output: `M <obs> <obs> … | S <exp> <exp> …`; obs = pidset,in_callback,lock_count,held,fault  or `blk` (blocked) -/
@@ -14,6 +14,8 @@ import CoapVerif.Generated.ThreadCfg
 -- DRIVER-OPS: lkctxfail => Coap.Driver.Lock.ctxFailStep
 -- DRIVER-OPS: lkeintr => Coap.Driver.Lock.eintrStep
 -- DRIVER-OPS: lksmoke => Coap.Driver.Lock.smokeStep
+-- DRIVER-OPS: lkheld => Coap.Driver.Lock.heldStep
+-- DRIVER-OPS: lkio => Coap.Driver.Lock.ioStep
 namespace Coap.Driver.Lock
 open Coap Coap.Lock
 
@@ -24,6 +26,7 @@ def tokOf (s : String) : Option Tok :=
   else if s = "X+" then some (.cbIn .rel) else if s = "X-" then some (.cbOut .rel)
   else if s = "Y+" then some (.cbIn .retRel) else if s = "Y-" then some (.cbOut .retRel)
   else if s = "W+" then some (.cbIn .win) else if s = "W-" then some (.cbOut .win)
+  else if s = "S" then some .startup
   else none
 
 def toksOf (ws : List String) : Option (List Tok) := ws.mapM tokOf
@@ -153,6 +156,52 @@ def eintrStep (args : List String) : String :=
       let fin := finish rc 2 30 1 r.2.1 r.2.2
       "M " ++ (if refused && fin == some G.init then "ok" else "unserialised") ++ " | S ok"
     | none => "bad-op"
+  | _ => "bad-op"
+
+/-- `lkheld <file> <func>`: what one function does under the lock, as recorded in Generated.heldFns; S: it makes no
+call to a lock-taking public API function there (theorem `lib_api_call_deadlocks_or_faults`: such a call cannot succeed) -/
+def heldStep (args : List String) : String :=
+  match args with
+  | [f, n] =>
+    match Generated.heldFns.find? (fun a => a.file = f && a.name = n) with
+    | some a => "M entry=" ++ (if a.entersHeld then "held" else "takes") ++ " calls=" ++ toString a.heldCalls ++
+                " api_calls=" ++ toString a.apiCalls ++ " | S api_calls=0"
+    | none => "M no-such-site | S api_calls=0"
+  | _ => "bad-op"
+
+/-- what the I/O thread does in one round of scenario `sc` of `lkio`: the release window around its wait, then the timer
+work of coap_io_prepare_io_lkd — all library code; where that invokes an application callback it does so through a macro
+and the callback re-enters the API.  0 keepalive ping of an idle UDP client session (no callback); 1 TCP keepalive
+(ping / pong handlers: coap_lock_callback); 2 retransmission of a CON (event handler: coap_lock_callback_ret);
+3 idle server session expiry (event handler: coap_lock_callback_ret) -/
+def ioRound (sc : Nat) : List Tok :=
+  let work : List Tok :=
+    if sc = 0 then []
+    else if sc = 2 ∨ sc = 3 then [.cbIn .ret, .startup, .lock, .unlock, .cbOut .ret]
+    else [.cbIn .keep, .startup, .lock, .unlock, .cbOut .keep]
+  [.lock, .cbIn .win, .cbOut .win] ++ work ++ [.unlock]
+
+/-- `lkio <rc> <scenario> <workers> <seed>`: the I/O thread (two rounds of `ioRound`) against `workers` application
+threads each issuing `coap_startup(); api call; api call`, under a schedule that gives every thread a turn in the
+I/O thread's window and during its timer work; M: everything completes and the lock ends in its initial state
+(theorems `progress`, `all_done_lock_initial`) -/
+def ioStep (args : List String) : String :=
+  match args with
+  | [r, sc, w, _] =>
+    match rcOf r, sc.toNat?, w.toNat? with
+    | some rc, some sc, some w =>
+      if sc < 4 && 1 ≤ w && w ≤ 3 then
+        let io := ioRound sc ++ ioRound sc
+        let progs := progsOf (io :: List.replicate w [.startup, .lock, .unlock, .lock, .unlock])
+        let n := w + 1
+        let sched := (List.range (io.length * n)).map (· % n)
+        if (io :: List.replicate w [Tok.startup, .lock, .unlock, .lock, .unlock]).all (wn []) then
+          let r := runSched rc sched progs G.init
+          let fin := finish rc n ((io.length + 5 * w + 1) * (n + 1)) 0 r.2.1 r.2.2
+          "M " ++ (if fin == some G.init then "ok" else "stuck") ++ " | S ok"
+        else "M ill-nested | S ok"
+      else "bad-op"
+    | _, _, _ => "bad-op"
   | _ => "bad-op"
 
 /-- `lksmoke …`: a test, not a model run: the only acceptable outcome is `ok` -/
